@@ -23,6 +23,7 @@ mod c15;
 mod c18;
 mod c18e;
 mod c19;
+mod c19e;
 mod c20;
 mod gate;
 mod mock;
@@ -89,6 +90,7 @@ fn main() {
         ("c19", "learn") => c19::cmd_learn(rest),
         ("c19", "stress") => c19::cmd_stress(rest),
         ("c19", "merge") => c19::cmd_merge(rest),
+        ("c19", "refresh") => c19e::cmd_refresh(rest),
         ("mock", "demo") => mock::cmd_demo(rest),
         _ => {
             eprintln!("unknown command {:?}", &args[..2]);
